@@ -3,8 +3,9 @@ BaseChannelArgs defaults (search depth, return char, base prompt pattern), the c
 CONSTRUCTED driver of each kind hands to its channel (Generic, Network over the IOS-XE table, the five
 core platforms; sync and asyncio must agree), the flags _get_prompt_pattern compiles it with,
 ANSI_ESCAPE_PATTERN and ANSI_ESCAPE_PARTIAL_PATTERN, which of the two known shapes the escape-sequence
-carry-over of read() has (AST), and the unit-level behaviour of _process_read_buf, _process_output and
-_get_prompt_pattern observed by calling them on probe inputs (compiled as obligations over the model)."""
+carry-over of read() has (AST), and the unit-level behaviour of _process_read_buf, _process_output,
+_get_prompt_pattern and of Channel.read / AsyncChannel.read themselves (one transport chunk in, what read() returns
+and what it carries over out) observed by calling them on probe inputs (compiled as obligations over the model)."""
 import ast
 import inspect
 import os
@@ -102,6 +103,77 @@ def _probes():
     return prb, po, facts
 
 
+class _ChunkTransport:
+    """stands in for the transport of a constructed channel: read() hands out one given chunk"""
+
+    def __init__(self, chunk, is_async):
+        self.chunk, self.is_async = chunk, is_async
+
+    def read(self):
+        if not self.is_async:
+            return self.chunk
+
+        async def _r():
+            return self.chunk
+        return _r()
+
+
+# UTF-8 characters whose last byte is 0x9b / 0x9d (ordinary continuation bytes; as single bytes the 8-bit CSI / OSC codes)
+_C9B = ["\u041b", "\u015b", "\u4f9b", "\U0001f61b"]        # Cyrillic El, s acute, CJK 4F9B, an emoji
+_C9D = ["\u041d", "\u00dd", "\u601d", "\U0001f61d"]
+# what ANSI_ESCAPE_PATTERN can consume after its first byte
+_FOLLOW = [b"7", b"8", b"M", b"E", b"[0m", b"[1;32m", b"[K", b"[?25h", b"[lab]", b"[12 34 x", b"]0;title\x07", b"]2 a b\x07"]
+
+
+def _read_probes():
+    """(carried over before, transport chunk, read() result, carried over after) observed on the REAL Channel.read and
+    AsyncChannel.read of a constructed GenericDriver.  Chunks WITHOUT an escape character in which the bytes 0x9b / 0x9d
+    (as the last byte of a UTF-8 character) are followed by everything the ANSI pattern could consume: read() is to hand
+    them on verbatim (minus CR); chunks with escape sequences, whole, cut at the end (carried over), completed by the
+    carry-over; chunks whose only ESC is held back while a 0x9b.. pair stays in front of it"""
+    import asyncio
+    chunks = []
+    for chars in (_C9B, _C9D):
+        for i, f in enumerate(_FOLLOW):
+            ch = chars[i % len(chars)].encode("utf-8")
+            ws = [b"", b" ", b"\t", b"\n"][i % 4]
+            chunks.append((b"", b"Vlan name \xd0\x92" + ch + b"\xd0\x90" + ch + ws + f + b" up\r\n"))
+            chunks.append((b"", ch + f))
+        chunks.append((b"", b"".join(c.encode("utf-8") + f for c, f in zip(chars * 3, _FOLLOW))))
+    chunks.append((b"", bytes([0x9b]) + b"7 " + bytes([0x9d]) + b"[0m bare 8-bit codes, no ESC\r\n"))
+    esc = [b"\x1b[0m", b"\x1b[1;32m", b"\x1b[K", b"\x1b7", b"\x1b 8", b"\x1b]0;title\x07", b"\x1b[?25h"]
+    for i, e in enumerate(esc):
+        chunks.append((b"", b"ab" + e + b"cd\r\n"))
+        chunks.append((b"", b"\xd0\x9b7 " + e + b" \xe6\x80\x9d[lab] x"))       # ESC present: the whole chunk is stripped
+        for cut in range(1, len(e)):
+            chunks.append((b"", b"\xd0\x9b7 \xd0\x9d[K text " + e[:cut]))        # the only ESC is held back
+            chunks.append((e[:cut], e[cut:] + b" tail \xc5\x9bM"))
+    chunks.append((b"\x1b", b"\xd0\x9d8 no sequence after all"))
+    chunks.append((b"", b"plain text\r\nrouter1#"))
+    chunks.append((b"", b"\r"))
+    out = []
+    for is_async in (False, True):
+        ch = _driver("generic", not is_async).channel
+        loop = asyncio.new_event_loop() if is_async else None
+        try:
+            for partial, chunk in chunks:
+                ch.transport = _ChunkTransport(chunk, is_async)
+                ch._ansi_partial = partial
+                r = ch.read()
+                if is_async:
+                    r = loop.run_until_complete(r)
+                held = ch._ansi_partial
+                if not isinstance(r, bytes) or not isinstance(held, bytes):
+                    raise ValueError("read() returned %r / carried over %r" % (type(r), type(held)))
+                item = (partial, chunk, r, held)
+                if item not in out:
+                    out.append(item)
+        finally:
+            if loop is not None:
+                loop.close()
+    return out
+
+
 def generate(outdir):
     from scrapli.channel import base_channel as bc
     from scrapli.channel.base_channel import BaseChannelArgs
@@ -184,9 +256,14 @@ def generate(outdir):
     lines.append("(* (return char, strip_prompt, buffer, _process_output(buffer)) observed on a GenericDriver channel *)")
     lines.append("Definition gen_po_probes : list (bytes * bool * bytes * bytes) := [\n  %s]." % ";\n  ".join(
         "(%s, %s, %s, %s)" % (_cb(rt), "true" if st else "false", _cb(b), _cb(r)) for rt, st, b, r in po))
+    rd = _read_probes()
+    lines.append("(* (carried over before, transport chunk, read() result, carried over after) observed on Channel.read / AsyncChannel.read *)")
+    lines.append("Definition gen_read_probes : list (bytes * bytes * bytes * bytes) := [\n  %s]." % ";\n  ".join(
+        "(%s, %s, %s, %s)" % (_cb(a), _cb(b), _cb(c), _cb(d)) for a, b, c, d in rd))
     for k, v in sorted(facts.items()):
         lines.append("Definition gen_%s : bool := %s." % (k, "true" if v else "false"))
-    info["probes"] = {"prb": len(prb), "process_output": len(po), "xpat": facts}
+    info["probes"] = {"prb": len(prb), "process_output": len(po), "read": len(rd),
+                      "read_without_esc": sum(1 for a, b, _, _ in rd if 27 not in a + b), "xpat": facts}
     text = "\n".join(lines) + "\n"
     path = os.path.join(outdir, "Gen_Channel.v")
     if not os.path.exists(path) or open(path).read() != text:
